@@ -126,6 +126,11 @@ func findCtx(ctx context.Context) *Ctx {
 		return nil
 	}
 	c, _ := ctx.Value(ctxKey{}).(*Ctx)
+	if c != nil && ctx.Done() == nil {
+		// the Value chain leads to a modelled context but cancellation was detached on the way
+		// (context.WithoutCancel or a wrapper of the same kind): this context is never done
+		return nil
+	}
 	return c
 }
 
